@@ -830,3 +830,64 @@ def summary_complete(ctx):
                 ok = ok or same
         ctx.require(ok, q, 'the summary of the provider answer alone is cached when %s, but the provider was asked with the marker `%s`: no guard requires that marker to be empty' % (' and '.join(shown) or 'always', norm(marker)), c,
                     'after a partial cache hit the address is cached with the balance / output count of the tail only (0 / 0 when nothing is new): getcacheaddressinfo and later cache answers report it')
+
+
+@PROP.obligation('C20.failure-channel', canaries=[
+    mut.replace_expr(SVC, 'Service.getrawtransaction', "self._provider_execute('getrawtransaction', txid)", "self._provider_execute('getrawtransaction', txid) or ''", 'failed raw-transaction query answers an empty string'),
+])
+def failure_channel(ctx):
+    """_provider_execute answers False when no provider answered or the error limit was reached. Every Service method that calls it either
+    raises on that value or hands it to its caller unchanged (the documented failure value). None CONVERTS it into something that reads
+    like an answer: bool(False) is the answer "unspent", `if not fee: fee = <default>` is a fee nobody estimated. Each call site is
+    classified; a site that is neither is undecided."""
+    m = ctx.repo.mod(SVC)
+    n = 0
+    for qn, fn in sorted(m.functions.items()):
+        if not qn.startswith('Service.') or qn == 'Service._provider_execute':
+            continue
+        parents = {}
+        for x in ast.walk(fn):
+            for c in ast.iter_child_nodes(x):
+                parents[c] = x
+        for c in ast.walk(fn):
+            if not (isinstance(c, ast.Call) and norm(c.func) == 'self._provider_execute'):
+                continue
+            n += 1
+            q = SVC + ':' + qn
+            what = c.args[0].value if c.args and isinstance(c.args[0], ast.Constant) else '?'
+            p_ = parents.get(c)
+            if isinstance(p_, ast.Return):
+                ctx.saw('%s: %s answer returned as it is' % (qn, what))
+                continue
+            if isinstance(p_, ast.Call) and isinstance(p_.func, ast.Name) and p_.func.id in ('bool', 'int', 'str', 'len', 'float', 'list', 'dict'):
+                ctx.violate(q, 'the answer of the providers for `%s` goes through %s(...): the failure value False becomes the answer %r' % (what, p_.func.id, {'bool': False, 'int': 0, 'str': 'False', 'float': 0.0}.get(p_.func.id, '...')), p_,
+                            'at the error limit (or when every provider fails) the query reports an answer no provider gave')
+                continue
+            if isinstance(p_, ast.BoolOp) or isinstance(p_, ast.IfExp):
+                ctx.violate(q, 'the answer of the providers for `%s` is combined with a default (`%s`): the failure value is replaced' % (what, norm(p_)[:70]), p_,
+                            'a failed query answers the default instead of failing')
+                continue
+            if isinstance(p_, ast.Assign) and len(p_.targets) == 1 and isinstance(p_.targets[0], ast.Name):
+                v = p_.targets[0].id
+                replaced = None
+                for t in ast.walk(fn):
+                    if not isinstance(t, ast.If):
+                        continue
+                    tt = t.test
+                    falsy_test = (isinstance(tt, ast.UnaryOp) and isinstance(tt.op, ast.Not) and norm(tt.operand) == v) or norm(tt) in ('%s is False' % v, '%s == False' % v, '%s is None' % v)
+                    if not falsy_test:
+                        continue
+                    for x in ast.walk(ast.Module(body=t.body, type_ignores=[])):
+                        if isinstance(x, ast.Assign) and x is not p_ and t.lineno > p_.lineno and any(norm(y) == v for y in x.targets) and not (isinstance(x.value, ast.Constant) and x.value.value in (False, None)):
+                            replaced = x
+                if replaced is not None:
+                    ctx.violate(q, 'when the providers give no answer for `%s` the method continues with `%s`' % (what, norm(replaced)[:70]), replaced,
+                                'a failed query answers (and caches) a value no provider gave')
+                else:
+                    ctx.saw('%s: %s answer bound to `%s`, not replaced when it is the failure value' % (qn, what, v))
+                continue
+            if isinstance(p_, ast.Call) and isinstance(p_.func, ast.Attribute) and p_.func.attr == 'append':
+                ctx.saw('%s: %s answer collected' % (qn, what))
+                continue
+            ctx.unsure('%s: use of the provider answer for `%s` not classified: %s' % (qn, what, norm(p_)[:80]))
+    ctx.floor(n, 14, 'provider queries in Service')
